@@ -68,7 +68,11 @@ def run(chk, tier):
     with ThreadPoolExecutor(max_workers=3) as ex:
         fut = ex.map(_tlc, jobs + cjobs)
         # the real proofs run meanwhile
-        real = common.vh(["real", "--proofs", 6 if thorough else 2, "--traces", o("c16-traces.ndjson")]
+        # every library call on a real proof has a deadline (honest calls take milliseconds): a call that does
+        # not return is recorded as <call>-does-not-terminate, its thread abandoned; the harness timeout is
+        # only the last resort
+        real = common.vh(["real", "--proofs", 6 if thorough else 2, "--traces", o("c16-traces.ndjson"),
+                          "--deadline-ms", 60000 if thorough else 20000]
                          + (["--thorough"] if thorough else []), binname=BIN, timeout=1700)[-1]
         results = dict(fut)
     for name, _, _, _, _ in jobs:
@@ -95,7 +99,8 @@ def run(chk, tier):
     chk.nontrivial += n_eval
     chk.traces += real["roundtrips"]
     keep = ("configs", "skipped_configs", "skip_reasons", "proofs", "roundtrips", "recompressions",
-            "roundtrips_by_schedule", "verdict_pairs", "tampered",
+            "roundtrips_by_schedule", "threads_abandoned", "abandoned_by_schedule",
+            "configs_skipped_after_nontermination", "violations_per_key", "verdict_pairs", "tampered",
             "tampered_both_accept", "tampered_compress_panics", "redundant_tampers", "redundant_rejected_plain",
             "redundant_accepted_compressed", "classes", "lde_bits", "schedules", "traces", "honest_rejected")
     chk.extra["real"] = {k: real[k] for k in keep}
@@ -119,10 +124,10 @@ def run(chk, tier):
     _canary(chk, "shape-preserving tampers were rejected through both paths",
             real["tampered"] > 0 and real["tampered_both_accept"] < real["tampered"])
     can = common.vh(["real", "--proofs", 1, "--limit", 40, "--canary-flip"], binname=BIN)[-1]
-    hits = [v for v in can["violations"] if v["key"].startswith("C16/roundtrip/")
-            and v["key"].endswith("/decompress-compress-not-identity")]
-    _canary(chk, "one flipped element of a decompressed proof is reported",
-            can["proofs"] > 0 and len(hits) >= min(can["proofs"], 20) - 2)
+    hits = sum(n for key, n in can["violations_per_key"].items()
+               if key.startswith("C16/roundtrip/") and key.endswith("/decompress-compress-not-identity"))
+    _canary(chk, "one flipped element of a decompressed proof is reported (for every proof of the canary run)",
+            can["proofs"] > 0 and hits >= can["proofs"] - 2 and len(can["violations"]) > 0)
 
     # ---- B1: enumerated tuples on the real FriProof::compress: data must not be lost (property level),
     #      the layout is the model's (DRIFT level)
